@@ -79,6 +79,7 @@ MUTANTS: Dict[str, List[Tuple[str, str, str, Optional[str]]]] = {
         ("pyttb/sptensor.py", "                    newsubs = np.vstack((newsubs, self.subs[moresubs, :]))\n                    newvals = np.vstack((newvals, morevals))\n\n            # other nonzero", "                    newsubs = np.vstack((newsubs, SelfZeroSubs[moresubs, :]))\n                    newvals = np.vstack((newvals, morevals))\n\n            # other nonzero", "IX-dom"),
     ],
     "C07": [
+        ("pyttb/sptensor.py", "                np.array([]),\n                np.array([]),\n                np.concatenate((keep_shape, new_shape)),", "                np.array([]),\n                np.array([]),\n                np.concatenate((keep_shape, old_shape)),", "RSHAPE"),
         ('pyttb/tensor.py', '        return ttb.tensor(np.transpose(self.data, order), copy=True)', '        if order[0] == 0:\n            return ttb.tensor(self.data, tuple(np.array(self.shape)[order]), copy=True)\n        return ttb.tensor(np.transpose(self.data, order), copy=True)', 'FWD'),
         ("pyttb/sptensor.py", "self.subs[:, order], self.vals, tuple(np.array(self.shape)[order])", "self.subs[:, order], self.vals, tuple(np.array(self.shape)[np.argsort(order)])", None),
         ("pyttb/tensor.py", "self.data.reshape(shape, order=self.order), shape, copy=True", "self.data.reshape(shape, order=\"C\"), shape, copy=True", "EO-1"),
@@ -86,6 +87,7 @@ MUTANTS: Dict[str, List[Tuple[str, str, str, Optional[str]]]] = {
         ("pyttb/ttensor.py", "new_u = [self.factor_matrices[idx] for idx in order]", "new_u = [self.factor_matrices[idx] for idx in np.argsort(order)]", None),
     ],
     "C08": [
+        ("pyttb/ktensor.py", "D = np.diag(np.power(self.weights, 1.0 / self.ndims))", "D = np.diag(np.power(self.weights, 1.0 / self.ncomponents))", "SCALE"),
         ("pyttb/ktensor.py", "tmp = np.linalg.norm(self.factor_matrices[mode][:, r], ord=normtype)", "tmp = np.linalg.norm(self.factor_matrices[mode][:, r])", "NORMARG"),
         ('pyttb/ktensor.py', '                        1.0 / tmp * self.factor_matrices[mode][:, r]\n                    )\n                self.weights[r] = self.weights[r] * tmp', '                        1.0 / tmp * self.factor_matrices[mode][:, r]\n                    )\n                    self.weights[r] = self.weights[r] * tmp', 'SCALE'),
         ('pyttb/ktensor.py', '                p = np.argsort(self.weights)[::-1]\n                self.arrange(permutation=p)', '                p = np.argsort(self.weights)[::-1]\n                self.weights[:] = np.abs(self.weights)\n                self.arrange(permutation=p)', 'PS-k'),
@@ -104,6 +106,7 @@ MUTANTS: Dict[str, List[Tuple[str, str, str, Optional[str]]]] = {
         ("pyttb/cp_als.py", "    U = init.copy().factor_matrices", "    U = init.factor_matrices", "INIT"),
     ],
     "C10": [
+        ("pyttb/hosvd.py", "ranks[k] = np.where(eigsum > eigsumthresh)[0][-1] + 1", "ranks[k] = np.where(eigvec > eigsumthresh)[0][-1] + 1", "THR"),
         ('pyttb/tucker_als.py', '        for n in dimorder:\n', '        for n, rank_n in zip(dimorder, rank):\n', 'SLOT'),
         ("pyttb/hosvd.py", "factor_matrices[k] = V[:, pi[0 : ranks[k]]]", "factor_matrices[k] = V[:, pi[0 : ranks[k] + 1]]", "UNITS"),
         ("pyttb/hosvd.py", "eigsumthresh = ((tol**2) * normxsqr) / d", "eigsumthresh = (tol * normxsqr) / d", "THR"),
@@ -118,6 +121,7 @@ MUTANTS: Dict[str, List[Tuple[str, str, str, Optional[str]]]] = {
         ("pyttb/cp_apr.py", "    for iteration in range(maxiters):\n        isConverged = True\n        for n in range(N):\n            # Make adjustments", "    for iteration in range(maxiters + 1):\n        isConverged = True\n        for n in range(N):\n            # Make adjustments", "LOOP"),
     ],
     "C12": [
+        ("pyttb/tensor.py", "V[k] = mttv_mid(W, U[k + 1 : split_idx + 1])", "V[k] = mttv_mid(W, U[k + 1 : split_idx])", "SPLIT"),
         ('pyttb/gcp/fg.py', '            Y *= weights\n        F = float(np.sum(Y))', '            Y[weights == 0] = 0\n        F = float(np.sum(Y))', 'FG-agree'),
         ("pyttb/gcp/handles.py", "    return 1 - data / (model + EPS)", "    return 1 - data / (model + EPS) ** 2", "GRAD-deriv"),
         ("pyttb/gcp/fg_setup.py", "        function_handle = handles.poisson\n        gradient_handle = handles.poisson_grad\n        lower_bound = 0.0", "        function_handle = handles.poisson\n        gradient_handle = handles.poisson_grad\n        lower_bound = -np.inf", "DOM-lb"),
